@@ -66,7 +66,7 @@ def drive(mod, tier, seed, out=sys.stdout):
     if hasattr(mod, "prepare"):
         mod.prepare(tier, seed)
     budget = budget_for(mod, tier)
-    deadline = t0 + budget
+    deadline = time.time() + budget          # the (re)build does not eat into the exploration budget
     known = findings.load(mod.ID)
     batch_n = getattr(mod, "BATCH", 50)
     workers = getattr(mod, "WORKERS", core.NCPU)
